@@ -34,6 +34,7 @@ import (
 type kvStep struct {
 	C string    `json:"c"`
 	X bool      `json:"x,omitempty"`
+	D int       `json:"d,omitempty"` // Ctx form only: 0 live context, 1 already cancelled, 2 deadline already expired
 	K []string  `json:"k,omitempty"`
 	S []string  `json:"s,omitempty"`
 	I []int64   `json:"i,omitempty"`
@@ -348,13 +349,32 @@ func (e *kvEnv) step(s kvStep) string {
 	e.ncmd++
 	e.types[ent.typ] = true
 	e.classes["cmd:"+s.C] = true
-	if len(s.K) > 0 && kvRefSrv.Exists(s.K[0]) && (ent.mtype == "*" || kvRefSrv.Type(s.K[0]) == ent.mtype) {
+	dead := s.X && s.D != 0
+	if !dead && len(s.K) > 0 && kvRefSrv.Exists(s.K[0]) && (ent.mtype == "*" || kvRefSrv.Type(s.K[0]) == ent.mtype) {
 		e.hits++
 		e.classes["hit:"+s.C] = true
 	}
-	ctx := context.Background()
+	// context of the step: live (carrying a value in the Ctx form), already cancelled,
+	// or with a deadline that has already passed. With a dead context go-redis answers
+	// ctx.Err() without touching the server; the store's Ctx methods must do the same.
+	ctx, refCtx := context.Background(), context.Background()
 	if s.X {
 		ctx = context.WithValue(ctx, kvCtxKey{}, "c12")
+		switch s.D {
+		case 1:
+			c, cancel := context.WithCancel(ctx)
+			cancel()
+			ctx = c
+		case 2:
+			c, cancel := context.WithDeadline(ctx, time.Unix(1, 0))
+			defer cancel()
+			ctx = c
+		}
+	}
+	if dead {
+		refCtx = ctx
+		e.classes[fmt.Sprintf("ctx-dead:%d", s.D)] = true
+		e.classes["deadctx:"+s.C] = true
 	}
 	before := e.counts()
 	got, gerr := ent.wrap(e.store, ctx, s)
@@ -365,13 +385,36 @@ func (e *kvEnv) step(s kvStep) string {
 	switch {
 	case gerr == red.Nil:
 		e.classes["reply:redis.Nil"] = true
-	case gerr != nil:
+	case gerr != nil && !dead:
 		e.classes["reply:server-error"] = true
+	}
+	noneTouched := func() string {
+		after := e.counts()
+		for i := 1; i < len(after); i++ {
+			if d := after[i] - before[i]; d != 0 {
+				return fmt.Sprintf("dead context: shard %d still processed %d commands", i-1, d)
+			}
+		}
+		return ""
+	}
+	if dead && ent.judge != nil {
+		if gerr != ctx.Err() {
+			return fmt.Sprintf("dead context (%v): store returned (%s, %q), go-redis returns the context's error", ctx.Err(), kvCanon(got, false), kvErrStr(gerr))
+		}
+		return noneTouched()
+	}
+	if dead && s.C == "Del" {
+		// the statement is silent about the error of a multi-key delete (the store joins
+		// one error per key): it must fail, delete nothing and reach no shard
+		if gerr == nil || got.(int) != 0 {
+			return fmt.Sprintf("dead context (%v): Del returned (%v, %q)", ctx.Err(), got, kvErrStr(gerr))
+		}
+		return noneTouched()
 	}
 	if ent.judge != nil {
 		return ent.judge(s, got, gerr)
 	}
-	want, werr := ent.ref(kvRef, context.Background(), s)
+	want, werr := ent.ref(kvRef, refCtx, s)
 	if kvErrStr(gerr) != kvErrStr(werr) {
 		return fmt.Sprintf("store error %q, single server %q; store value %s, single-server value %s",
 			kvErrStr(gerr), kvErrStr(werr), kvCanon(got, ent.unordered), kvCanon(want, ent.unordered))
@@ -512,6 +555,14 @@ func kvGen(rt *rapid.T) kvCase {
 		s := kvTable[name].gen(g)
 		s.C = name
 		s.X = g.uni(2) == 1
+		if s.X { // about 1 Ctx call in 7 gets a dead context
+			switch g.uni(14) {
+			case 0:
+				s.D = 1
+			case 1:
+				s.D = 2
+			}
+		}
 		c.Steps = append(c.Steps, s)
 	}
 	return c
